@@ -406,7 +406,7 @@ class C13(Check):
             yield ("corpus:" + fn, item["spec"], None)
         n = 25 if ctx.quick else 150
         for i in range(n):
-            sp = G.gen_spec(ctx.rng, size=1 if i % 3 else 2, inp_only=False, exotic=0.15)
+            sp = G.gen_spec(ctx.rng, size=1 if i % 3 else 2, inp_only=False, exotic=0.5 if i % 5 == 0 else 0.0)
             yield ("gen%d" % i, sp, None)
         nets = ["Net1.inp", "Net2.inp", "Net3.inp"] + ([] if ctx.quick else ["Net6.inp", "ky10.inp"])
         for nm in nets:
